@@ -354,6 +354,10 @@ class Simulator(EventProducer, SimulatorInterface, Generic[TIME]):
             raise DSOLError("cannot start: simulator_time > run length")
         if not run_until_time >= self._simulator_time:
             raise DSOLError("cannot run up to a time before simulator_time")
+        if run_until_time > self._replication.end_sim_time:
+            # never run beyond the end of the replication
+            run_until_time = self._replication.end_sim_time
+            run_until_including = True
         # only a command that passed all checks may change the run bound
         self._run_until_time = run_until_time
         self._run_until_including = run_until_including
